@@ -6,9 +6,9 @@ export PYTHONPATH=/verif:/repo PYTHONDONTWRITEBYTECODE=1 PYTHONWARNINGS=ignore
 mkdir -p evidence replays
 rc=0
 tmp=$(mktemp -d)
-for f in spec/*.tla; do
-  cp spec/*.tla "$tmp"/
-done
+cp spec/*.tla "$tmp"/
+# Suites.tla extends the generated registry module
+/venv/bin/python -B -c "from checks.c14 import suites_data; open('$tmp/SuitesData.tla','w').write(suites_data())" || rc=1
 for f in spec/*.tla; do
   b=$(basename "$f")
   case "$b" in Trace*) continue;; esac
